@@ -5,6 +5,10 @@ import WrapModel.Model.Dump
 import WrapModel.Model.IDump
 import WrapModel.Model.Pybind
 import WrapModel.Model.Matlab.Cpp
+import WrapModel.Model.Runtime.Mx
+import WrapModel.Model.Runtime.Gateway
+import WrapModel.Model.XmlDriver
+import WrapModel.Spec.Subst
 
 namespace WrapModel.Driver
 open WrapModel
@@ -73,6 +77,23 @@ def handle (fields : List String) : String :=
         match Inst.instModule m with
         | .ok im => okLine (IDump.imodule im)
         | .error e => errLine e
+  | ["icpp", h] =>
+    match Hex.decode h with
+    | none => "bad\thex"
+    | some text =>
+      match parseInst text with
+      | .ok im => okLine (IDump.cppModule im)
+      | .error e => errLine e
+  | ["spec-icpp", h] =>
+    match Hex.decode h with
+    | none => "bad\thex"
+    | some text =>
+      match Parse.parseModule text with
+      | .error e => errLine e
+      | .ok m =>
+        match Spec.specInstModule m with
+        | .ok im => okLine (IDump.cppModule im)
+        | .error e => errLine e
   | "pybind" :: rest =>
     match decodeAll rest with
     | some args => handlePybind args
@@ -81,6 +102,9 @@ def handle (fields : List String) : String :=
     match decodeAll rest with
     | some args => handleMatlab args
     | none => "bad\thex"
+  | "mx" :: rest => Mx.handleLine rest
+  | "gw" :: rest => Gateway.handleLine rest
+  | "xml" :: rest => Xml.handleLine rest
   | _ => "bad\top"
 
 end WrapModel.Driver
